@@ -330,7 +330,9 @@ class StmtMixin(CallMixin):
                             v = v.value
                         if isinstance(v, ast.Attribute):
                             fields.add(v.attr)
-                    if name is not None:
+                    local_container = (isinstance(f, ast.Attribute) and isinstance(f.value, ast.Name) and f.value.id in self.st.env
+                                       and self.st.env[f.value.id].ty.kind in ('list', 'dict', 'set'))
+                    if name is not None and not local_container:      # d.update(...) on a local dict is not EventResult.update
                         eff = self.spec_effects().get(name)
                         if eff:
                             fields.update(eff[0])
